@@ -922,3 +922,37 @@ def rule_qrange(ctx) -> RuleResult:
                        f"the quantile levels are not bounded {side} before the reduction runs: with engine='flox' a negative q indexes into the neighbouring "
                        "group and a plausible number comes back (quantile of [1, 5 | 2, 9 | 4, 7] at q=-0.5 gives [4.0, 3.5, 6.5]); NumPy raises ValueError")
     return res
+
+
+# ---------------------------------------------------------------------------------------------
+# R-DTYPENORM (C19, C11): a user-supplied dtype is normalised with np.dtype before anything asks for its .kind.
+# `dtype` may be a string ('float32'), a scalar type (np.float32) or an np.dtype.  groupby_reduce hands it to _initialize_aggregation, which
+# normalises it; the sibling entry point groupby_scan must do the same before the value (or a blueprint slot holding it) reaches code that
+# reads dtype.kind / itemsize (xrdtypes._get_fill_value): otherwise 'str' object has no attribute 'kind'.
+def rule_dtypenorm(ctx) -> RuleResult:
+    res = RuleResult("R-DTYPENORM", "every API entry point normalises the user's dtype with np.dtype before it is inspected", min_instances=2)
+    prog = ctx.prog
+    for q in ("core.groupby_reduce", "core.groupby_scan"):
+        f = prog.func(q)
+        if "dtype" not in f.params:
+            res.inst(f"{q}: no dtype parameter", q)
+            continue
+        own = [c for c in calls_in(f.node) if norm(c.func) in ("np.dtype", "numpy.dtype") and c.args and "dtype" in names_in(c.args[0])]
+        via = []
+        for c in calls_in(f.node):
+            g = prog.funcs.get(f"aggregations.{norm(c.func)}") or prog.funcs.get(f"core.{norm(c.func)}")
+            if g is None or "dtype" not in g.params:
+                continue
+            passes = any(isinstance(a, ast.Name) and a.id == "dtype" for a in c.args) or any(k.arg == "dtype" and isinstance(k.value, ast.Name) and k.value.id == "dtype" for k in c.keywords)
+            if passes and any(norm(x.func) in ("np.dtype", "numpy.dtype") and x.args and "dtype" in names_in(x.args[0]) for x in calls_in(g.node)):
+                via.append(g.qualname)
+        # does this function (not a callee that normalises) inspect the dtype or store it into a blueprint slot that is inspected?
+        stores = [a for a in walk_own(f.node) if isinstance(a, ast.Assign) and any(isinstance(t, ast.Attribute) and t.attr == "dtype" for t in a.targets)
+                  and "dtype" in names_in(a.value)]
+        ok = bool(own) or (bool(via) and not stores)
+        res.inst(f"{q}: np.dtype(dtype) here: {bool(own)}; in a callee that receives it: {sorted(set(via)) or False}; stored raw into a blueprint slot here: {bool(stores)}", q)
+        if not ok:
+            res.report(f"{q}|dtype-not-normalised", f.where(stores[0]) if stores else f.where(), q,
+                       "the user's `dtype` is stored / inspected without np.dtype(...): a string or scalar-type dtype ('float32', np.float32) reaches code that "
+                       "reads dtype.kind (xrdtypes._get_fill_value) and fails with AttributeError; the sibling entry point normalises it")
+    return res
